@@ -113,7 +113,7 @@ def batch_upper(max_n, seed, count):
 
 
 def conditions(tier, seed):
-    N = 4 if tier == 'quick' else 6
+    N = 4 if tier == 'quick' else 7
     return cards_conditions('c13_exact', 'c13', 'exact', indexed_shapes(N), 30 if tier == 'quick' else 90,
                             'estimate == closed-form exact count')
 
@@ -146,7 +146,7 @@ def info(tier):
         'coverage': {
             'functions_encoded': ['FMEstimatedConfigurationsNumber.execute/get_result/get_configurations_number', 'count_configurations', 'count_configurations_rec',
                                   'Relation.is_*', 'Feature.is_leaf/get_relations'],
-            'bounds': {'shapes_E1': 'N<=%d' % (4 if tier == 'quick' else 6), 'shapes_E2': 'N<=%d' % (4 if tier == 'quick' else 5),
+            'bounds': {'shapes_E1': 'N<=%d' % (4 if tier == 'quick' else 7), 'shapes_E2': 'N<=%d' % (4 if tier == 'quick' else 5),
                        'constraints': '1-2 trees of depth<=1 over <=3 names'},
             'stubs': [],
         },
